@@ -177,7 +177,11 @@ class LogUniform(Sampler):
         return "LogUniform"
 
     def __eq__(self, other) -> bool:
-        return isinstance(other, LogUniform) and self.base == other.base
+        return (
+            isinstance(other, LogUniform)
+            and str(self) == str(other)
+            and self.base == other.base
+        )
 
 
 class Normal(Sampler):
@@ -268,6 +272,10 @@ class Float(Domain):
 
     # Transform is -log(1 - x)
     class _ReverseLogUniform(LogUniform):
+        def __str__(self):
+            # Name used by ``to_dict`` / ``from_dict``; must differ from ``LogUniform``
+            return "ReverseLogUniform"
+
         def sample(
             self,
             domain: "Float",
